@@ -1,3 +1,107 @@
-"""Checker self-test (thorough tier): placeholder until mutation tables exist."""
-def run(prop):
-    return 0
+"""Checker self-test (thorough tier).
+
+For every property a table of *designated variants* of the current source is derived in memory
+(`Repo(overlay=...)`, nothing is written to /repo and nothing is executed):
+
+  * breaking variants: a small edit that violates the property (among them the reverse of every
+    `fix:` commit) - the named rule must report a finding;
+  * benign variants: behaviour-preserving edits - the check must stay silent.
+
+A variant whose `old` text no longer occurs in the file (the tree was edited) is reported as skipped.
+A self-test failure is an ANALYSIS-ERROR (exit 2): the checker, not the repository, is broken.
+"""
+from __future__ import annotations
+import importlib, os, sys
+from .core import Repo, AnalysisError, load_known, known_key, PKG
+
+
+def variants_for(prop):
+    try:
+        mod = importlib.import_module(f"msa.variants.{prop.lower()}")
+    except ModuleNotFoundError:
+        return [], []
+    return getattr(mod, "BREAKING", []), getattr(mod, "BENIGN", [])
+
+
+def apply(repo_root, file, old, new, count=1):
+    path = os.path.join(repo_root, file)
+    with open(path, encoding="utf-8") as fh:
+        src = fh.read()
+    if old not in src:
+        return None
+    return src.replace(old, new, count)
+
+
+def run_variant(prop, file, old, new):
+    from .cli import run_property
+    base = Repo()
+    src = apply(base.root, file, old, new)
+    if src is None:
+        return None
+    try:
+        repo = Repo(overlay={file: src})
+    except AnalysisError:
+        return "parse-error"
+    try:
+        rc, ctx, new_f, old_f = run_property(prop, "quick", repo=repo, quiet=True, write=False)
+    except AnalysisError as e:
+        return ("analysis-error", str(e))
+    return new_f
+
+
+def run(prop, verbose=True):
+    breaking, benign = variants_for(prop)
+    if not breaking and not benign:
+        print(f"  self-test: no designated variants for {prop}")
+        return 0
+    bad = 0
+    n_b = n_s = n_ok = 0
+    for v in breaking:
+        rule, file, old, new = v[:4]
+        res = run_variant(prop, file, old, new)
+        label = v[4] if len(v) > 4 else old.strip().splitlines()[0][:60]
+        if res is None:
+            n_s += 1
+            if verbose:
+                print(f"  self-test SKIP  (text not present) {rule}: {label}")
+            continue
+        n_b += 1
+        if isinstance(res, tuple) or res == "parse-error":
+            bad += 1
+            print(f"  self-test FAIL  breaking variant made the analyser give up ({res}) {rule}: {label}")
+            continue
+        hit = [f for f in res if f.rule == rule or rule == "*"]
+        if hit:
+            n_ok += 1
+            if verbose:
+                print(f"  self-test ok    fires {rule}: {label}")
+        else:
+            bad += 1
+            print(f"  self-test FAIL  rule {rule} silent on breaking variant: {label} (other findings: {[f.rule for f in res]})")
+    for v in benign:
+        file, old, new = v[:3]
+        label = v[3] if len(v) > 3 else old.strip().splitlines()[0][:60]
+        res = run_variant(prop, file, old, new)
+        if res is None:
+            n_s += 1
+            if verbose:
+                print(f"  self-test SKIP  (text not present) benign: {label}")
+            continue
+        n_b += 1
+        if isinstance(res, tuple) or res == "parse-error" or res:
+            bad += 1
+            what = res if isinstance(res, (tuple, str)) else [(f.rule, f.construct[:80]) for f in res]
+            print(f"  self-test FAIL  alarm on benign variant: {label}: {what}")
+        else:
+            n_ok += 1
+            if verbose:
+                print(f"  self-test ok    silent on benign: {label}")
+    print(f"  self-test {prop}: {n_ok}/{n_b} variants behaved as required, {n_s} skipped")
+    return 1 if bad else 0
+
+
+if __name__ == "__main__":
+    rc = 0
+    for p in sys.argv[1:]:
+        rc |= run(p.upper())
+    sys.exit(rc)
